@@ -215,7 +215,7 @@ def order_type_rules(check: Check) -> None:
     negative / infinite), then - where x and the parameters are finite - as exact values: both sides are brought to a
     rational-function normal form for that order type and compared."""
     from ..algebra import Algebra
-    from ..ordertype import (X_GRID, IsNaN, LinearForms, NotAlgebraic, OrderEval, abs_sign_oracle, comparison_forms, describe, eval_cases, exact_value,
+    from ..ordertype import (X_GRID, IsNaN, LinearForms, NotAlgebraic, OrderEval, abs_sign_oracle, make_algebra, comparison_forms, describe, eval_cases, exact_value,
                              flatten, leaf_env, numeric_witness, order_types, spec_term)
 
     p = check.program
@@ -287,7 +287,7 @@ def order_type_rules(check: Check) -> None:
                 continue
             # exact comparison on this piece
             n_exact_tried += 1
-            alg = Algebra(abs_sign_oracle(lf))
+            alg = make_algebra(lf)
             try:
                 try:
                     rc = exact_value(code, ev, alg)
